@@ -92,6 +92,13 @@ func (c *twoProofs) Define(api frontend.API) error {
 }
 
 func c02Run(it c02Item) (ok bool, desc string, extra map[string]any) {
+	// building the circuit through the repository's constructors is part of what must work for an honest
+	// instance: a constructor that panics (cannot read its inputs, ...) means the proof cannot be verified
+	defer func() {
+		if r := recover(); r != nil {
+			ok, desc, extra = false, fmt.Sprintf("the circuit for this honest instance could not be built or run: panic: %v", r), nil
+		}
+	}()
 	if it.Wrapper == "two-proofs-one-chip" {
 		names := strings.Split(it.Base, "+")
 		a, b := wv.Load(names[0], it.K), wv.Load(names[1], it.K)
